@@ -347,6 +347,73 @@ func restartScenario(at time.Duration, bound int) e1.Scenario {
 	return e1.Scenario{Name: fmt.Sprintf("restart-while-callback-busy/second-listen@%v", at), Bound: bound, Body: body, Check: check, Opt: vs.Options{Horizon: 3000}}
 }
 
+// doubleStopScenario: the caller signals the stop channel more than once (an impatient second
+// Ctrl-C: two values on a buffered channel, or a value followed by close) while the listener's slow
+// callback is still busy with the first of two events that were read before the first signal. The
+// listener stops once, delivers both events exactly once, returns nil and frees the address.
+func doubleStopScenario(how string, bound int) e1.Scenario {
+	var l1 *slowListener
+	var ret error
+	var done bool
+	body := func() {
+		l1 = &slowListener{delay: T / 2}
+		done, ret = false, nil
+		c1 := l1
+		vs.Net().Env = &farm.Farm{}
+		u := uhppote.NewUHPPOTE(types.BindAddr{}, types.BroadcastAddr{}, types.ListenAddrFrom(netip.MustParseAddr("0.0.0.0"), lport), T, nil, false)
+		for k := 0; k < 2; k++ {
+			d := datagram("valid", k)
+			vs.After(T/10, func() { vs.Net().DeliverUDP("192.168.1.100:60000", fmt.Sprintf("192.168.1.2:%d", lport), d) })
+		}
+		q := make(chan os.Signal, 2)
+		vs.GoNamed("stopper", func() {
+			vs.Sleep(2 * T / 10)
+			vs.Send(q, os.Signal(os.Interrupt))
+			switch how {
+			case "two-signals-at-once":
+				vs.Send(q, os.Signal(os.Interrupt))
+			case "second-signal-later":
+				vs.Sleep(T / 10)
+				vs.Send(q, os.Signal(os.Interrupt))
+			case "signal-then-close":
+				vs.Sleep(T / 10)
+				vs.Close(q)
+			}
+		})
+		ret = u.Listen(c1, q)
+		done = true
+	}
+	check := func(e *vs.Exec) (string, []e1.Viol) {
+		viols := e1.Generic(e)
+		for _, r := range e.Races {
+			viols = append(viols, e1.Viol{Key: "race", What: "data race: " + r})
+		}
+		if e.Abort != "" {
+			return e.Abort, viols
+		}
+		add := func(key, what string) {
+			viols = append(viols, e1.Viol{Key: "double-stop/" + key, What: fmt.Sprintf("%s (stop channel: %s, the callback busy with the first of two events read before the first signal)", what, how)})
+		}
+		if !done || ret != nil {
+			add("listener-did-not-return-nil", fmt.Sprintf("returned=%v err=%v", done, ret))
+		}
+		ev := 0
+		for _, c := range l1.calls {
+			if c.kind == "event" {
+				ev++
+			}
+		}
+		if ev != 2 {
+			add("events", fmt.Sprintf("%d events delivered, 2 were read before the listener was stopped", ev))
+		}
+		if open := vs.Net().OpenSockets(); len(open) > 0 {
+			add("socket-leak", fmt.Sprint(open))
+		}
+		return fmt.Sprintf("double-stop %s ret=%v events=%d", how, ret == nil, ev), viols
+	}
+	return e1.Scenario{Name: "double-stop/" + how, Bound: bound, Body: body, Check: check, Opt: vs.Options{Horizon: 3000}}
+}
+
 func sequences(alphabet []string, maxLen int) [][]string {
 	out := [][]string{{}}
 	frontier := [][]string{{}}
@@ -481,6 +548,14 @@ func main() {
 			b = 2
 		}
 		scenarios = append(scenarios, restartScenario(at, b))
+	}
+	// the stop channel signalled more than once while the callback is busy
+	for _, how := range []string{"two-signals-at-once", "second-signal-later", "signal-then-close"} {
+		b := 1
+		if r.Thorough() {
+			b = 2
+		}
+		scenarios = append(scenarios, doubleStopScenario(how, b))
 	}
 	// (c) start/stop cycles on the same address
 	for _, seq := range sequences([]string{"valid", "bad-boolean"}, 1) {
